@@ -750,8 +750,16 @@ fn resolve_names_item_decl(ctx: &mut StaticsContext, symbol_table: &SymbolTable,
             for (index, method) in iface_def.methods.iter().enumerate() {
                 method_set.insert(method.name.v.clone(), index);
             }
-            if let Some(decl) = ctx.resolution_map.get(&iface_impl.typ.id).cloned() {
-                match decl.into_type_key() {
+            let impl_type_key = match ctx.resolution_map.get(&iface_impl.typ.id).cloned() {
+                Some(decl) => Some(decl.into_type_key()),
+                None => match &*iface_impl.typ.kind {
+                    // a function type has no declaration to resolve to
+                    TypeKind::Function(args, _) => Some(Some(TypeKey::Function(args.len() as u8))),
+                    _ => None,
+                },
+            };
+            if let Some(impl_type_key) = impl_type_key {
+                match impl_type_key {
                     Some(type_key) => {
                         for f in iface_impl.methods.iter() {
                             method_set.remove(&f.name.v);
